@@ -139,6 +139,15 @@ def raw_apps(iface):
                         def close(s):
                             app.closed += 1
                     return It()
+                if shape in ("empty_then_raise", "empty_then_body"):
+                    def g3():
+                        yield b""  # (a way to have the headers sent early)
+                        if shape == "empty_then_raise":
+                            raise Boom("after the empty chunk")
+                        yield b"late body"
+                    return g3()
+                if shape == "sees_environ":
+                    return [("ext:" + ",".join(sorted(k for k in environ if k in ("wsgi.file_wrapper", "server.feature")))).encode()]
                 if shape == "raise_after_start":
                     raise Boom("after start")
                 if shape == "raise_after_chunk":
@@ -149,7 +158,7 @@ def raw_apps(iface):
             app.calls = 0
             app.closed = 0
             return app
-        return {s: (lambda s=s: mk(s)) for s in ("list", "list_caps", "cookie_ws", "restart_exc_info", "list2", "tuple", "empty", "empty_iter", "gen", "closeable", "raise_before", "raise_after_start", "raise_after_chunk")}
+        return {s: (lambda s=s: mk(s)) for s in ("list", "list_caps", "cookie_ws", "restart_exc_info", "list2", "tuple", "empty", "empty_iter", "gen", "closeable", "raise_before", "raise_after_start", "raise_after_chunk", "empty_then_raise", "empty_then_body", "sees_environ")}
 
     def amk(shape):
         async def app(scope, receive, send):
@@ -164,6 +173,10 @@ def raw_apps(iface):
                 chunks = [b"s" * 40, b"L" * 65536, b"t" * 3] if shape == "mixed_sizes" else [b"body"]
                 for i, c in enumerate(chunks):
                     await send({"type": "http.response.body", "body": c, "more_body": i < len(chunks) - 1})
+                return
+            if shape == "sees_scope":
+                names = ",".join(sorted((scope.get("extensions") or {}).keys()))
+                await send({"type": "http.response.body", "body": ("ext:" + names + ";tls=" + str("tls" in (scope.get("extensions") or {}))).encode()})
                 return
             if shape in ("one_nokey", "two_nokey"):
                 # more_body defaults to False: the last message may leave the key out
@@ -184,7 +197,7 @@ def raw_apps(iface):
         app.calls = 0
         app.closed = 0
         return app
-    return {s: (lambda s=s: amk(s)) for s in ("one", "two", "three", "nobody", "one_nokey", "two_nokey", "utf8_headers", "mixed_sizes", "headers_iter", "raise_before", "raise_after_start", "raise_after_chunk")}
+    return {s: (lambda s=s: amk(s)) for s in ("one", "two", "three", "nobody", "one_nokey", "two_nokey", "sees_scope", "utf8_headers", "mixed_sizes", "headers_iter", "raise_before", "raise_after_start", "raise_after_chunk")}
 
 
 # ------------------------------------------------------------------ wrappers
@@ -269,15 +282,21 @@ def build(iface, name, stack, tmpfile):
 
 
 def requests_menu():
-    return [("GET", [], []), ("HEAD", [], []), ("POST", [("Content-Type", "text/plain"), ("Content-Length", "4")], [b"bo", b"dy"]), ("GET", [("Range", "bytes=1-2")], [])]
+    return [("GET", [], []), ("HEAD", [], []), ("POST", [("Content-Type", "text/plain"), ("Content-Length", "4")], [b"bo", b"dy"]), ("GET", [("Range", "bytes=1-2")], []), ("GET", [("X-Ext", "1")], [])]
 
 
 def run(iface, app, method, headers, chunks):
     req = SV.AReq(method=method, headers=headers, chunks=chunks)
     random.seed(7)
     if iface == "wsgi":
-        return SV.run_wsgi(app, SV.to_environ(req))
-    return SV.run_asgi(app, SV.to_scope(req), SV.to_messages(req))
+        env = SV.to_environ(req)
+        if ("X-Ext", "1") in headers:
+            env["wsgi.file_wrapper"] = lambda f, n=8192: iter(lambda: f.read(n), b"")  # what a server may offer beyond the required keys
+            env["server.feature"] = "present"
+        return SV.run_wsgi(app, env)
+    # informational / capability extensions a server announces (no zero-copy here: C02 covers that one)
+    ext = {"tls": {"tls_version": 772}, "http.response.push": {}, "x.custom": {"k": 1}} if ("X-Ext", "1") in headers else None
+    return SV.run_asgi(app, SV.to_scope(req, extensions=ext) if ext else SV.to_scope(req), SV.to_messages(req))
 
 
 def norm_headers(res, drop=()):
@@ -411,6 +430,13 @@ def run_shard(desc, tier):
                 if bare.exc is not None:
                     if type(res.exc) is not type(bare.exc):
                         r.violation("exception-class-differs", w, f"{where}: bare app raises {type(bare.exc).__name__}, wrapped gives {res.exc!r:.100} status {res.status}")
+                    else:
+                        # what the server had received when the failure came: if the bare app had handed over a piece of the body
+                        # (even an empty one: that is how headers are sent early), the wrapped one has started the same response
+                        delivered = (lambda x: len(x.items) if iface == "wsgi" else sum(1 for e in x.events if e.get("type") == "http.response.body"))
+                        # (WSGI only: the ASGI middleware records the inner response completely before it replays it)
+                        if iface == "wsgi" and delivered(bare) >= 1 and (res.status != bare.status or delivered(res) < 1 or not bare.body.startswith(res.body[:len(bare.body)]) or len(res.body) < len(bare.body)):
+                            r.violation("failure-point-differs", w, f"{where}: the bare app had started its response (status {bare.status}, {delivered(bare)} piece(s), body {bare.body[:30]!r}) when it failed; wrapped, the server had seen status {res.status}, {delivered(res)} piece(s), body {res.body[:30]!r}")
                     continue
                 if res.exc is not None:
                     r.violation(f"wrapped-raises:{type(res.exc).__name__}", w, f"{where}: wrapped app raised {res.exc!r:.120}; the bare app answers {bare.status}")
